@@ -9,14 +9,24 @@ called, the stop flags of the per-worker results, and whether every thread ended
 * `one-at-a-time`  the caller's TestResult sees whole, well-shaped blocks only (C12's `mutex` and `shape`);
 * `delivered`      what each worker emitted reached the caller's result once and in that worker's order:
                    suite - the sections of thread `w+1` are exactly worker `w`'s own sequence (started workers all
-                   finish); stream - the events with route code `w` are a prefix of `w`'s events (id, payload, tags and -
-                   if the emitter gave one - its own instant; for TestResult-API tests and for tests that call
-                   `result.status()` themselves), all of them when `run()` returned normally, and EVERY delivered event
-                   carries a time stamp; nothing from workers never started;
+                   finish); stream - a worker is known to the caller's result by its ROUTE CODE only, and `make_tests` may
+                   give the same code (`None`, or the same string) to several workers.  For every route code `r` the events
+                   delivered under `r`, in delivery order, are an INTERLEAVING of prefixes of the event sequences of the
+                   started workers that were given `r` (`isMergePrefix`: each delivered event is the next event - id,
+                   payload, tags and, if the emitter gave one, its own instant; for TestResult-API tests and for tests that
+                   call `result.status()` themselves - of one of those workers, every worker's events being consumed in its
+                   own order, none twice), and when `run()` returned normally an interleaving of ALL their events
+                   (`isMerge`: nothing lost, nothing extra).  When only one started worker has the code `r` - in particular
+                   whenever the codes are distinct - this says exactly: the events under `r` are a prefix of that worker's
+                   events, resp. all of them (`TTV.Props.C13.C13_merge_single`); with equal codes the order BETWEEN the colliding
+                   workers is free and an event that both would emit next may be credited to either - which is all an
+                   observer of route codes can tell.  EVERY delivered event carries a time stamp and a route code that was
+                   handed out; nothing from workers never started;
 * `complete`       on normal return every sub-suite was started, ran exactly once, has terminated, and the
                    caller's result never raised;
 * `broken-runner`  a sub-suite whose `run()` raises yields exactly one errored `broken-runner` test, others none
-                   (stream: on normal return; suite: for workers without injected faults);
+                   (stream: on normal return, counted per route code - as many as workers with that code raised; suite:
+                   for workers without injected faults);
 * `abort`          if `run()` raised: the exception is one the input can cause; every worker still registered
                    (started, not joined) was told to stop - stream: its result's `shouldStop` is set; suite: `stop()`
                    reached the target once per registered worker (or the `stop()` itself raised) - and on
@@ -35,13 +45,53 @@ def wSecs (i : SInput) (w : Nat) : List Section :=
   | some wk => segSecs (suiteProg w wk).segs
   | none => []
 
-/-- the events worker `w` emits (stream) -/
+/-- the events worker `w` emits (stream), as the caller's result sees them: under `w`'s route code -/
 def wEvents (i : SInput) (w : Nat) : List SEv :=
   match workerAt i w with
-  | some wk => streamEvents w i.tb wk
+  | some wk => streamEvents (routeOf i w) i.tb wk
   | none => []
 
-def sinkOf (w : Nat) (t : STrace) : List SEv := (t.sink.filter fun p => p.1.w == w).map (·.1)
+/-- the route codes handed out -/
+def routeCodes (i : SInput) : List Nat := (List.range (nWorkers i)).map (routeOf i)
+
+/-- the events delivered under route code `r`, in delivery order -/
+def sinkOf (r : Nat) (t : STrace) : List SEv := (t.sink.filter fun p => p.1.w == r).map (·.1)
+
+/-- per worker (position = worker index): what it may contribute to the events under route code `r` - its own event sequence if
+it was given `r` and was started, nothing otherwise -/
+def streamsOf (i : SInput) (t : STrace) (r : Nat) : List (List SEv) :=
+  (List.range (nWorkers i)).map fun w => if routeOf i w == r && t.spawned.contains w then wEvents i w else []
+
+/-! ### interleavings
+
+`mergeStates l [ss]` = every way of accounting for the observed list `l` as an interleaving of the streams `ss`: a *state* is
+what is left of each stream; an observed event must be the head of some stream, which is then advanced.  States are kept
+without duplicates, so the search is polynomial (at most one state per tuple of positions). -/
+section merge
+variable {α : Type} [BEq α]
+
+/-- the states reached from `ss` by taking `e` from the head of one of the streams -/
+def takeHead (e : α) (ss : List (List α)) : List (List (List α)) :=
+  (List.range ss.length).filterMap fun k =>
+    match ss[k]? with
+    | some (x :: xs) => if x == e then some (ss.set k xs) else none
+    | _ => none
+
+def addNew (x : List (List α)) (l : List (List (List α))) : List (List (List α)) := if l.contains x then l else x :: l
+
+def dedupe (l : List (List (List α))) : List (List (List α)) := l.foldr addNew []
+
+def mergeStates : List α → List (List (List α)) → List (List (List α))
+  | [], sts => sts
+  | e :: l, sts => mergeStates l (dedupe (sts.flatMap (takeHead e)))
+
+/-- `l` is an interleaving of prefixes of the streams `ss` -/
+def isMergePrefix (l : List α) (ss : List (List α)) : Bool := !(mergeStates l [ss]).isEmpty
+
+/-- `l` is an interleaving of the whole streams `ss` -/
+def isMerge (l : List α) (ss : List (List α)) : Bool := (mergeStates l [ss]).any fun st => st.all List.isEmpty
+
+end merge
 
 def isStopSec : Section → Bool
   | [(.ctl .stop, _)] => true
@@ -65,11 +115,10 @@ def cDelivered (i : SInput) (t : STrace) : Bool :=
            Spec.C12.secsOf (w + 1) ps == (if t.spawned.contains w then wSecs i w else [])
     | none => false
   | .stream =>
-    t.sink.all (fun p => decide (p.1.w < nWorkers i) && p.2.1)
-    && (List.range (nWorkers i)).all fun w =>
-         (sinkOf w t).isPrefixOf (wEvents i w)
-         && (t.spawned.contains w || (sinkOf w t).isEmpty)
-         && (t.result != some .returned || sinkOf w t == wEvents i w)
+    t.sink.all (fun p => (routeCodes i).contains p.1.w && p.2.1)
+    && (routeCodes i).all fun r =>
+         isMergePrefix (sinkOf r t) (streamsOf i t r)
+         && (t.result != some .returned || isMerge (sinkOf r t) (streamsOf i t r))
 
 def cComplete (i : SInput) (t : STrace) : Bool :=
   t.result != some .returned ||
@@ -77,8 +126,13 @@ def cComplete (i : SInput) (t : STrace) : Bool :=
       && t.runs == (List.range (nWorkers i)).map (fun _ => 1)
       && t.sink.all fun p => !p.2.2)
 
-def brokenFails (w : Nat) (t : STrace) : Nat :=
-  (t.sink.filter fun p => p.1 == brokenFail w).length
+/-- the final events of errored `broken-runner` tests delivered under route code `r` -/
+def brokenFails (r : Nat) (t : STrace) : Nat :=
+  (t.sink.filter fun p => p.1 == brokenFail r).length
+
+/-- the workers given route code `r` whose `run()` raises -/
+def boomsOf (i : SInput) (r : Nat) : Nat :=
+  ((List.range (nWorkers i)).filter fun w => routeOf i w == r && ((workerAt i w).map (·.boom)).getD false).length
 
 /-- the event is thread `w+1` reporting the errored `broken-runner` test -/
 def isBrokenError (w : Nat) : Ev → Bool
@@ -93,7 +147,7 @@ def cBrokenRunner (i : SInput) (t : STrace) : Bool :=
     | none => true
     | some wk =>
       match i.flavour with
-      | .stream => t.result != some .returned || brokenFails w t == (if wk.boom then 1 else 0)
+      | .stream => t.result != some .returned || brokenFails (routeOf i w) t == boomsOf i (routeOf i w)
       | .suite => !(t.spawned.contains w && wk.faults.isEmpty) || brokenErrors w t == (if wk.boom then 1 else 0)
 
 /-- a `stop()` call of main (thread 0) on the caller's result, with "raised" -/
